@@ -326,7 +326,7 @@ def judge_c17(scn, run) -> Tuple[List[Viol], Dict[str, int]]:
         tagb = "" if nb == 1 else "/bridge%d" % b
         cnt(c, "judged-actions")
         if k in ("start", "aenter"):
-            busy = sorted(set(act["foreign"]) & set(ports))
+            busy = sorted(set(act["foreign"]) & set(ports)) + [p for p in ports if not 0 <= p <= 65535]
             if busy and not running[b] and act["outcome"][0] == "exc":
                 cnt(c, "probe:start-with-busy-port")
                 which = "first" if busy[0] == run.bridge_ports[b][0] else "later"
@@ -419,6 +419,30 @@ def judge_c17(scn, run) -> Tuple[List[Viol], Dict[str, int]]:
                     v.append(("C17/not-listening-while-running", "a broadcast to port %d found no socket of the running bridge" % a["port"]))
                 elif a["payload"][18:21].hex() not in delivered_ids:
                     v.append(("C17/missing-delivery", "a broadcast that arrived while running was never delivered"))
+    # quiet moments (after a sleep, long after the last lifecycle action): what a bridge says about itself must
+    # agree with what it holds - in both directions (e.g. a socket error must not flip the flag)
+    last_life = {}
+    for act in run.actions:
+        if act["kind"] not in ("occupy", "release"):
+            last_life[act.get("bridge", 0)] = act
+    for snap in getattr(run, "snapshots", []):
+        model_at = {}
+        for b in range(nb):
+            r = False
+            for act in run.actions:
+                if act["kind"] in ("occupy", "release") or act.get("bridge", 0) != b or act.get("seq1", 0) > snap["seq"]:
+                    continue
+                r = bool(act["running"])
+            model_at[b] = r
+        for b, stt in enumerate(snap["state"][:nb]):
+            cnt(c, "judged-quiet-snapshots")
+            valid_ports = [p for p in bports[b] if 0 <= p <= 65535]
+            listening = stt["held"] == valid_ports and valid_ports == bports[b]
+            if stt["running"] != listening or (stt["held"] and stt["held"] != bports[b]):
+                v.append(("C17/flag-disagrees-with-sockets/%s" % ("says-running" if stt["running"] else "says-stopped"),
+                          "at a quiet moment bridge %d says is_running=%s while it holds ports %s of %s" % (
+                              b, stt["running"], stt["held"], bports[b])))
+                break
     cnt(c, "judged-iteration-samples", getattr(run, "running_samples", 0))
     for smp in getattr(run, "running_but_not_listening", [])[:1]:
         v.append(("C17/running-while-not-listening-on-all-ports",
